@@ -56,12 +56,13 @@ def plan(tier, seed):
         specs.append({"name": f"keyid-{i}", "kind": "keyid", "bases": names[i::4]})
     for i in range(8):
         specs.append({"name": f"random-{i}", "kind": "random", "n": 3000 if q else 120000})
+    specs.append({"name": "scaling", "kind": "scaling", "repeats": 5 if q else 15})
     return specs
 
 
 def finalize(agg, tier):
     r = []
-    for c in ("inputs_executed", "line_events_counted", "kdf_calls_counted", "outcome_deliberate_error", "memory_samples", "unpack_only_runs", "async_runs"):
+    for c in ("inputs_executed", "line_events_counted", "kdf_calls_counted", "outcome_deliberate_error", "memory_samples", "unpack_only_runs", "async_runs", "scaling_probes"):
         if agg.counter(c) == 0:
             r.append(f"monitor never reached: {c}")
     deep = agg.sets.get("deepest_module", set())
@@ -242,10 +243,103 @@ def run_random(spec, rec: Recorder):
         loop.close()
 
 
+def run_scaling(spec, rec: Recorder):
+    """'parser steps proportional to input size': inputs of the same shape at n and 4n elements; executed lines and
+    CPU time (thread time, min of repeats, super-linear ratio must reproduce 4 times) may grow at most ~4x."""
+    import time
+
+    from dpapi_ng import _blob
+    from vf.ref import cms, der
+
+    base = mutate.base_blobs(spec["seed"], ["SHA256-nonce-envelope"])[0]
+    p = cms.parse(base.blob)
+
+    def many_recipients(n):
+        kekid = der.enc_seq(der.enc_octets(p["key_identifier"]), der.enc_seq(der.enc_oid(cms.OID_MS_SW), p["descriptor_raw"]))
+        ri = der.tlv(der.CONTEXT, True, 2, der.enc_int(4) + kekid + der.enc_seq(der.enc_oid(cms.OID_AES256_WRAP)) + der.enc_octets(p["enc_cek"]))
+        env = der.enc_seq(der.enc_int(2), der.enc_set(*([ri] * n)), der.enc_seq(der.enc_oid(cms.OID_DATA), der.enc_seq(der.enc_oid(cms.OID_AES256_GCM), p["content_params"])))
+        return der.enc_seq(der.enc_oid(cms.OID_ENVELOPED), der.tlv(der.CONTEXT, True, 0, env))
+
+    def long_oid(n):
+        oid = der.tlv(0, False, 6, b"\x2a" + b"\x01" * (40 * n))
+        return der.enc_seq(oid, der.tlv(der.CONTEXT, True, 0, b""))
+
+    def long_sid(n):
+        sid = "S-1-5-" + "-".join(["7"] * 15) + "-" + "9" * 0
+        desc = cms.protection_descriptor(sid + " " * (40 * n))
+        return cms.build(p["key_identifier"], desc, p["enc_cek"], p["enc_content"], p["content_params"])
+
+    def long_names(n):
+        from vf.ref import gkdi as rg
+
+        kid = rg.dec_key_identifier(p["key_identifier"])
+        return cms.build(rg.enc_key_identifier(dict(kid, domain_name="d" * (20 * n), forest_name="f" * (20 * n))), p["descriptor_raw"], p["enc_cek"], p["enc_content"], p["content_params"])
+
+    def big_content(n):
+        return cms.build(p["key_identifier"], p["descriptor_raw"], p["enc_cek"], bytes(100 * n), p["content_params"])
+
+    cache = mutate.offline_cache(base)
+    import dpapi_ng
+
+    targets = {
+        "unpack/many-recipient-infos": (_blob.DPAPINGBlob.unpack, many_recipients),
+        "unpack/long-oid": (_blob.DPAPINGBlob.unpack, long_oid),
+        "unprotect/long-sid-string": (lambda d: dpapi_ng.ncrypt_unprotect_secret(d, cache=cache), long_sid),
+        "unprotect/long-names": (lambda d: dpapi_ng.ncrypt_unprotect_secret(d, cache=cache), long_names),
+        "unprotect/big-content": (lambda d: dpapi_ng.ncrypt_unprotect_secret(d, cache=cache), big_content),
+    }
+
+    def measure(fn, data):
+        best = None
+        for _ in range(spec["repeats"]):
+            t0 = time.thread_time_ns()
+            try:
+                with mon.NET.guard():
+                    fn(data)
+            except BaseException:
+                pass
+            dt = time.thread_time_ns() - t0
+            best = dt if best is None else min(best, dt)
+        return best
+
+    for name, (fn, build) in targets.items():
+        small, big = build(250), build(1000)
+        steps = []
+        for data in (small, big):
+            try:
+                with mon.NET.guard(), mon.STEPS.measure(4000 + 60 * len(data)):
+                    fn(data)
+            except mon.StepBudgetExceeded as e:
+                rec.violation("step-budget", f"scaling probe {name}: {len(data)}-byte input exceeded the linear budget at {e}", {"label": name, "len": len(data)})
+            except BaseException:
+                pass
+            steps.append(mon.STEPS.n)
+        ratio_len = len(big) / len(small)
+        sr = steps[1] / max(1, steps[0])
+        rec.range(f"step_ratio_x100[{name}]", int(100 * sr))
+        if sr > 1.6 * ratio_len:
+            rec.violation("superlinear-steps", f"{name}: input grew {ratio_len:.1f}x, executed lines grew {sr:.1f}x ({steps})", {"label": name})
+        tries = []
+        for attempt in range(4):
+            r_ = measure(fn, big) / max(1, measure(fn, small))
+            tries.append(round(r_, 2))
+            if r_ <= 2.2 * ratio_len:
+                break
+        rec.range(f"cpu_ratio_x100[{name}]", int(100 * min(tries)))
+        rec.count("scaling_probes")
+        if len(tries) == 4 and min(tries) > 2.2 * ratio_len:
+            rec.violation("superlinear-work", f"{name}: input grew {ratio_len:.1f}x but CPU time grew {tries}x in four independent measurements", {"label": name})
+        rec.count("inputs_executed", 2)
+        rec.case(("scaling", name), nontrivial=True, sample={"probe": name, "len_small": len(small), "len_big": len(big), "steps": steps, "cpu_ratio": tries})
+
+
 def run_shard(spec, rec: Recorder):
     if not common.calibrate(rec, "der", "gkdi", "cms", "crypto"):
         return
     mon.KDFS.install()
+    if spec["kind"] == "scaling":
+        run_scaling(spec, rec)
+        return
     {"flips": run_flips, "structural": run_structural, "keyid": run_keyid, "random": run_random}[spec["kind"]](spec, rec)
 
 
